@@ -266,6 +266,7 @@ func c02WriteUniverse(dir string, tc *c02Case) (string, []byte) {
 		whole map[string]any
 		comps map[string]map[string]any
 		paths map[string]any
+		defs  map[string]any // definitions outside the typed structure: "x-defs" of the document / of the whole-file element
 	}
 	files := map[string]*fileDoc{}
 	get := func(f string) *fileDoc {
@@ -277,6 +278,13 @@ func c02WriteUniverse(dir string, tc *c02Case) (string, []byte) {
 	get("r/openapi.json")
 	for _, s := range tc.Files {
 		fd := get(s.File)
+		if dn, ok := strings.CutPrefix(s.Name, "#def:"); ok {
+			if fd.defs == nil {
+				fd.defs = map[string]any{}
+			}
+			fd.defs[dn] = c02Content2JSON(s.Kind, s.C)
+			continue
+		}
 		if s.Name == "" {
 			fd.whole = c02Content2JSON(s.Kind, s.C)
 			continue
@@ -347,6 +355,9 @@ func c02WriteUniverse(dir string, tc *c02Case) (string, []byte) {
 				d["components"] = comps
 			}
 			doc = d
+		}
+		if fd.defs != nil {
+			doc.(map[string]any)["x-defs"] = fd.defs
 		}
 		b, err := json.Marshal(doc)
 		if err != nil {
@@ -745,6 +756,11 @@ func collectRefStrings(v any, out *[]any) {
 					}
 					*out = append(*out, map[string]any{"text": s, "file": file, "frag": segs})
 				}
+				continue
+			}
+			if strings.HasPrefix(k, "x-") {
+				// the value of a specification extension is opaque data, not part of the OpenAPI structure: a "$ref" key
+				// inside it is no Reference Object
 				continue
 			}
 			collectRefStrings(e, out)
